@@ -330,7 +330,10 @@ class IntroVisitor(ast.NodeVisitor):
         # This is a bit brute-force (not working for multi-line function calls)
         # but it should be good enough in practice for most cases.
         # TODO: refine it based of the nested parse tree?
-        function_body_hash = dds_hash(self._body_lines[: node.lineno + 1])
+        # The context covers at least the line after the start of the call (as before) and all the lines of a call
+        # that is continued over more lines: run-time arguments written there must influence the signature.
+        last_line = max(node.lineno + 1, getattr(node, "end_lineno", None) or 0)
+        function_body_hash = dds_hash(self._body_lines[:last_line])
         # The list of all the previous interactions.
         # This enforces the concept that the current call depends on previous calls.
         function_inters_sig: Optional[PyHash] = dds_hash_commut(
